@@ -588,6 +588,9 @@ func (n *Net) ingest() {
 			if d.Jitter > 0 {
 				lat += time.Duration(n.s.Sched.Intn(8)) * d.Jitter / 8
 			}
+			if lat > 0 && !sg.eof {
+				n.s.Fault("net-delayed-segment")
+			}
 			due := now + lat
 			if due < d.lastDue {
 				due = d.lastDue
@@ -655,6 +658,7 @@ func (n *Net) deliver(d *Dir) int {
 		d.eof = true
 		d.inflight = d.inflight[1:]
 		d.broadcast()
+		n.s.Fault("net-eof-delivered")
 		return 0
 	}
 	take := 0
@@ -695,6 +699,7 @@ func (n *Net) deliver(d *Dir) int {
 		}
 	}
 	moved := 0
+	whole, split := 0, false
 	for take > 0 && len(d.inflight) > 0 && !d.inflight[0].eof {
 		sg := &d.inflight[0]
 		k := min(take, len(sg.data))
@@ -704,7 +709,18 @@ func (n *Net) deliver(d *Dir) int {
 		moved += k
 		if len(sg.data) == 0 {
 			d.inflight = d.inflight[1:]
+			whole++
+		} else {
+			split = true
 		}
+	}
+	// counted when they fire: a delivery that ends inside a written unit
+	// (frame split across TCP segments) or spans several written units
+	if split {
+		n.s.Fault("net-split-delivery")
+	}
+	if whole > 1 || (whole == 1 && split) {
+		n.s.Fault("net-coalesced-delivery")
 	}
 	d.Delivered += int64(moved)
 	if len(d.DeliveredObservers) > 0 && moved > 0 {
